@@ -82,7 +82,9 @@ func (s dsub) stok() string {
 		return join("MI", s.idx.stok(), s.idx2.stok(), b01(strings.Contains(s.chg, "parts")), b01(strings.Contains(s.chg, "comment")))
 	case "MF":
 		return join("MF", s.fk.stok(), s.fk2.stok())
-	case "ATC", "MTC":
+	case "ATC":
+		return "TCA"
+	case "MTC":
 		return "TC"
 	}
 	panic("unmodelled sub " + s.k)
